@@ -96,7 +96,7 @@ spec fn log_after(old_log: Seq<u64>, taken: Option<u64>) -> Seq<u64> {
 }
 
 impl<D: ChunkData, E> Reader<D, E> {
-    //@fn src/chunker.rs :: impl Reader :: fn size_hint props=C12 rules=R4
+    //@fn src/chunker.rs :: impl Reader :: fn size_hint props=C12 rules=R4,STD
     fn size_hint(&self) -> (r: SizeHint)
         requires self.shared.wf(),
         ensures
@@ -106,7 +106,7 @@ impl<D: ChunkData, E> Reader<D, E> {
     //@body
     //@end
 
-    //@fn src/chunker.rs :: impl Reader :: fn is_end_stream props=C11,C12 rules=R4
+    //@fn src/chunker.rs :: impl Reader :: fn is_end_stream props=C11,C12 rules=R4,STD
     fn is_end_stream(&self) -> (r: bool)
         requires self.shared.wf(),
         ensures
@@ -119,7 +119,7 @@ impl<D: ChunkData, E> Reader<D, E> {
     //@ at_start: proof { lemma_total_empty(self.shared.queue()); }
     //@end
 
-    //@fn src/chunker.rs :: impl Stream for Reader :: fn poll_next props=C08,C10,C11,C12,C20 implicit=C08,C20 rules=R1,R4,R5
+    //@fn src/chunker.rs :: impl Stream for Reader :: fn poll_next props=C08,C10,C11,C12,C20 implicit=C08,C20 rules=R1,R4,R5,STD
     fn poll_next(&mut self, cx: &mut Context) -> (r: Poll<Option<Result<D, E>>>)
         requires old(self).shared.wf(),
         ensures
@@ -145,7 +145,7 @@ impl<D: ChunkData, E> Reader<D, E> {
     //@end
 
     // C11 (disconnect): dropping the response body must tell the writer.  The contract requires a Drop impl.
-    //@fn src/chunker.rs :: impl Drop for Reader :: fn drop props=C11 rules=R4 missing=violation what=dropping_the_body_leaves_the_shared_state_Ok:_the_writer_is_never_told_and_the_queue_is_never_released
+    //@fn src/chunker.rs :: impl Drop for Reader :: fn drop props=C11 rules=R4,STD missing=violation what=dropping_the_body_leaves_the_shared_state_Ok:_the_writer_is_never_told_and_the_queue_is_never_released
     fn drop(&mut self)
         requires old(self).shared.wf(),
         ensures
@@ -179,7 +179,7 @@ impl<D: ChunkData, E> Writer<D, E> {
         self.shared.is_ok() ==> total(self.shared.queue()) + self.buf@.len() + more <= usize::MAX
     }
 
-    //@fn src/chunker.rs :: impl Writer :: fn with_chunk_size props=C08,C17 implicit=C17 rules=R4,R5,R18,T_chunk
+    //@fn src/chunker.rs :: impl Writer :: fn with_chunk_size props=C08,C17 implicit=C17 rules=R4,R5,R18,T_chunk,STD
     fn with_chunk_size(cap: usize) -> (r: (Self, Reader<D, E>))
         requires cap > 0,
         ensures
@@ -189,7 +189,7 @@ impl<D: ChunkData, E> Writer<D, E> {
     //@body
     //@end
 
-    //@fn src/chunker.rs :: impl Writer :: fn abort add=log props=C10,C11 rules=R4,R6
+    //@fn src/chunker.rs :: impl Writer :: fn abort add=log props=C10,C11 rules=R4,R6,STD
     fn abort(&mut self, error: E, log: &mut Ghost<Seq<u64>>)
         requires old(self).shared.wf(),
         ensures
@@ -201,7 +201,7 @@ impl<D: ChunkData, E> Writer<D, E> {
     //@body
     //@end
 
-    //@fn src/chunker.rs :: impl Writer :: fn flush_helper add=log props=C08,C10,C11 implicit=C08 rules=R4,R6
+    //@fn src/chunker.rs :: impl Writer :: fn flush_helper add=log props=C08,C10,C11 implicit=C08 rules=R4,R6,STD
     fn flush_helper(&mut self, dropping: bool, log: &mut Ghost<Seq<u64>>) -> (r: Result<(), ()>)
         requires old(self).wf_full_ok(), old(self).fits(0),
         ensures
@@ -220,7 +220,7 @@ impl<D: ChunkData, E> Writer<D, E> {
     //@ before "*ready_bytes += full_buf.len();": proof { lemma_push(ready@, full_buf); }
     //@end
 
-    //@fn src/chunker.rs :: impl Write for Writer :: fn flush add=log props=C08,C10,C11 implicit=C08 rules=R6,R7
+    //@fn src/chunker.rs :: impl Write for Writer :: fn flush add=log props=C08,C10,C11 implicit=C08 rules=R6,R7,STD
     fn flush(&mut self, log: &mut Ghost<Seq<u64>>) -> (r: io::Result<()>)
         requires old(self).wf_full_ok(), old(self).fits(0),
         ensures
@@ -235,7 +235,7 @@ impl<D: ChunkData, E> Writer<D, E> {
     //@ at_start: proof { if old(self).buf@.len() > 0 { lemma_push(old(self).shared.queue(), old(self).buf); } }
     //@end
 
-    //@fn src/chunker.rs :: impl Write for Writer :: fn write add=log props=C08,C10,C11 implicit=C08 rules=R5,R6,R18
+    //@fn src/chunker.rs :: impl Write for Writer :: fn write add=log props=C08,C10,C11 implicit=C08 rules=R5,R6,R18,STD
     fn write(&mut self, buf: &[u8], log: &mut Ghost<Seq<u64>>) -> (r: io::Result<usize>)
         requires old(self).wf(), old(self).fits(buf@.len()),
         ensures
@@ -248,7 +248,7 @@ impl<D: ChunkData, E> Writer<D, E> {
     //@body
     //@end
 
-    //@fn src/chunker.rs :: impl Drop for Writer :: fn drop add=log props=C08,C10 implicit=C08 rules=R6
+    //@fn src/chunker.rs :: impl Drop for Writer :: fn drop add=log props=C08,C10 implicit=C08 rules=R6,STD
     fn drop(&mut self, log: &mut Ghost<Seq<u64>>)
         requires old(self).wf_full_ok(), old(self).fits(0),
         ensures
